@@ -286,30 +286,80 @@ theorem size_after_feasible_selection (x : Rat) (f : Rat → Rat) (lo hi brent t
 theorem find_design_statements :
     Gen.findDesignOps = [.startTimer, .search, .computeG, .stopTimer, .size, .ret0] := by decide
 
-/-- Running those statements is: search, then size the selected field on the three-height objective. -/
-theorem findDesign1D_eq_spec (counts : List Nat) (E : Nat → Rat → Rat) (cfg : Cfg)
-    (f : Nat → Rat → Rat) (its : Nat → List Rat) (brent : Nat → Rat) :
-    findDesign1D counts E cfg f its brent = findDesign1DSpec counts E cfg f its brent := by
-  unfold findDesign1D findDesign1DSpec
+/-- Running those statements is: search, then size the selected field on the three-height
+    objective — whatever the search class (`α`, `β` are its candidate identifier and extra output). -/
+theorem findDesignG_eq_spec {α β : Type} (search : SearchRes α β) (E : α → Rat → Rat) (minH maxH : Rat)
+    (f : α → Rat → Rat) (its : α → List Rat) (brent : α → Rat) :
+    findDesignG search E minH maxH f its brent = findDesignSpec search minH maxH f its brent := by
+  unfold findDesignG findDesignSpec
   rw [find_design_statements]
   simp only [runMgr, mgrStep, Bool.false_eq_true, if_false]
-  cases (bisect1D counts E cfg).1 with
+  cases search with
   | valueError => rfl
   | pyError e => rfl
   | selected k h p =>
     simp only [Bool.false_eq_true, if_false, if_true]
-    cases size (f k) cfg.minH cfg.maxH (its k) (brent k) { H := h, simAt := none, returned := 0 } with
+    cases size (f k) minH maxH (its k) (brent k) { H := h, simAt := none, returned := 0 } with
     | error e => rfl
     | ok st => rfl
 
-/-- End-to-end statement for the flat searches (near-square, rectangle): whenever
-    `find_design` returns a design that is not a `continue_if_design_unmet` escape and whose
-    selected candidate is feasible at maximum height in the sizing objective as well (the
-    `Consistent` contract: the three-height interpolated objective agrees in sign with the
-    search-stage excess at max height — measured on every real run), then under Brent's contract and
-    a Lipschitz constant `c` the final object (i) reports temperatures computed at its final
-    height, (ii) has its height inside `[min_height, max_height]`, and (iii) has excess at most
-    `c·tol` at that height: the limits are kept within the sizing tolerance. -/
+/-- End-to-end statement for EVERY design method: whenever `find_design` returns a design whose
+    selected candidate is feasible at maximum height in the sizing objective (`f k maxH < 0`: for a
+    selection that is not a `continue_if_design_unmet` escape the search-stage excess is negative
+    there — `*_selected_feasible` — and the `Consistent` contract, measured on every real run, says
+    the three-height interpolated objective agrees in sign), then under Brent's contract and a
+    Lipschitz constant `c` the final object (o) is the candidate the search selected, (i) reports
+    temperatures computed at its final height, (ii) has its height inside `[min_height,
+    max_height]`, and (iii) has excess at most `c·tol` at that height. -/
+theorem find_design_feasible {α β : Type} (search : SearchRes α β) (E : α → Rat → Rat) (minH maxH : Rat)
+    (f : α → Rat → Rat) (its : α → List Rat) (brent : α → Rat) (d : DesignG α β) (tol c : Rat)
+    (hres : findDesignG search E minH maxH f its brent = .design d)
+    (hwin : minH ≤ maxH)
+    (hfeas : f d.field maxH < 0)
+    (hnz : f d.field minH ≠ 0)
+    (hb : 0 < f d.field minH → BrentSpec (f d.field) minH maxH tol (brent d.field))
+    (hl : Lipschitz (f d.field) c minH maxH) (hct : 0 ≤ c * tol) :
+    (∃ h, search = .selected d.field h d.path) ∧
+    d.st.simAt = some d.st.H ∧ minH ≤ d.st.H ∧ d.st.H ≤ maxH ∧ f d.field d.st.H ≤ c * tol := by
+  rw [findDesignG_eq_spec] at hres
+  unfold findDesignSpec at hres
+  cases search with
+  | valueError => simp at hres
+  | pyError e => simp at hres
+  | selected k h p =>
+    simp only at hres
+    cases hs : size (f k) minH maxH (its k) (brent k) { H := h, simAt := none, returned := 0 } with
+    | error e => simp [hs] at hres
+    | ok st =>
+      simp only [hs] at hres
+      injection hres with hres
+      subst hres
+      simp only at hfeas hnz hb hl ⊢
+      obtain ⟨h1, kind, hk⟩ := size_simAt (f k) minH maxH (its k) (brent k) _ _ hs
+      obtain ⟨kind', H', hk', hne, hle⟩ :=
+        size_after_feasible_selection ((maxH + minH) / 2) (f k) minH maxH (brent k) tol c
+          hfeas hnz hb hl hct
+      rw [hk] at hk'
+      injection hk' with hk'
+      injection hk' with e1 e2
+      subst e1; subst e2
+      refine ⟨⟨h, rfl⟩, h1, ?_, ?_, hle⟩
+      · -- the height is in the window: low clamp or Brent's iterate
+        rcases lt_or_gt_of_ne hnz with hneg | hpos
+        · have := solveRoot_clamped_low ((maxH + minH) / 2) (f k) minH maxH (brent k) hneg hfeas
+          rw [hk] at this; injection this with this; injection this with _ e; rw [e]
+        · obtain ⟨h2, _, h3, _⟩ := solveRoot_bracketed ((maxH + minH) / 2) (f k) minH maxH (brent k) tol c
+            (Or.inr ⟨hfeas, hpos⟩) (hb hpos) hl
+          rw [hk] at h2; injection h2 with h2; injection h2 with _ e; rw [e]; exact h3
+      · rcases lt_or_gt_of_ne hnz with hneg | hpos
+        · have := solveRoot_clamped_low ((maxH + minH) / 2) (f k) minH maxH (brent k) hneg hfeas
+          rw [hk] at this; injection this with this; injection this with _ e; rw [e]; exact hwin
+        · obtain ⟨h2, _, _, h4⟩ := solveRoot_bracketed ((maxH + minH) / 2) (f k) minH maxH (brent k) tol c
+            (Or.inr ⟨hfeas, hpos⟩) (hb hpos) hl
+          rw [hk] at h2; injection h2 with h2; injection h2 with _ e; rw [e]; exact h4
+
+/-- The flat searches (near-square, rectangle): the returned design is the field `Bisection1D.search`
+    selected, and it keeps the limits within `c·tol` at its final height. -/
 theorem find_design_feasible_1D (counts : List Nat) (E : Nat → Rat → Rat) (cfg : Cfg)
     (f : Nat → Rat → Rat) (its : Nat → List Rat) (brent : Nat → Rat) (d : Design) (tol c : Rat)
     (hres : findDesign1D counts E cfg f its brent = .design d)
@@ -319,44 +369,56 @@ theorem find_design_feasible_1D (counts : List Nat) (E : Nat → Rat → Rat) (c
     (hnz : f d.field cfg.minH ≠ 0)
     (hb : 0 < f d.field cfg.minH → BrentSpec (f d.field) cfg.minH cfg.maxH tol (brent d.field))
     (hl : Lipschitz (f d.field) c cfg.minH cfg.maxH) (hct : 0 ≤ c * tol) :
+    (∃ h, (bisect1D counts E cfg).1 = .selected d.field h d.path) ∧
     d.st.simAt = some d.st.H ∧ cfg.minH ≤ d.st.H ∧ d.st.H ≤ cfg.maxH ∧ f d.field d.st.H ≤ c * tol := by
-  rw [findDesign1D_eq_spec] at hres
-  unfold findDesign1DSpec at hres
-  generalize hb1 : (bisect1D counts E cfg).1 = o at hres
+  obtain ⟨⟨h, hsel⟩, rest⟩ := find_design_feasible _ E cfg.minH cfg.maxH f its brent d tol c hres hwin (hcons hfeas) hnz hb hl hct
+  refine ⟨⟨h, ?_⟩, rest⟩
+  unfold search1D at hsel
+  cases ho : (bisect1D counts E cfg).1 with
+  | valueError => simp [ho] at hsel
+  | pyError e => simp [ho] at hsel
+  | selected k h' p => simp only [ho] at hsel; injection hsel with e1 e2 e3; subst e1; subst e2; subst e3; rfl
+
+/-- The nested searches (bi-rectangle: `Bisection2D`; bi-zoned and polygon-constrained:
+    `BisectionZD`): the returned design is the (list, index) pair the search selected. -/
+theorem find_design_feasible_nested (o : Outcome2) (E2 : Nat → Nat → Rat → Rat) (minH maxH : Rat)
+    (f : Nat × Nat → Rat → Rat) (its : Nat × Nat → List Rat) (brent : Nat × Nat → Rat)
+    (d : DesignG (Nat × Nat) Unit) (tol c : Rat)
+    (hres : findDesignG (searchOf2 o) (fun lk => E2 lk.1 lk.2) minH maxH f its brent = .design d)
+    (hwin : minH ≤ maxH)
+    (hfeas : f d.field maxH < 0)
+    (hnz : f d.field minH ≠ 0)
+    (hb : 0 < f d.field minH → BrentSpec (f d.field) minH maxH tol (brent d.field))
+    (hl : Lipschitz (f d.field) c minH maxH) (hct : 0 ≤ c * tol) :
+    (∃ h, o = .selected d.field.1 d.field.2 h) ∧
+    d.st.simAt = some d.st.H ∧ minH ≤ d.st.H ∧ d.st.H ≤ maxH ∧ f d.field d.st.H ≤ c * tol := by
+  obtain ⟨⟨h, hsel⟩, rest⟩ := find_design_feasible _ _ minH maxH f its brent d tol c hres hwin hfeas hnz hb hl hct
+  refine ⟨⟨h, ?_⟩, rest⟩
+  unfold searchOf2 at hsel
   cases o with
-  | valueError => simp at hres
-  | pyError e => simp at hres
-  | selected k h p =>
-    simp only at hres
-    cases hs : size (f k) cfg.minH cfg.maxH (its k) (brent k) { H := h, simAt := none, returned := 0 } with
-    | error e => simp [hs] at hres
-    | ok st =>
-      simp only [hs] at hres
-      injection hres with hres
-      subst hres
-      simp only at hcons hfeas hnz hb hl ⊢
-      obtain ⟨h1, kind, hk⟩ := size_simAt (f k) cfg.minH cfg.maxH (its k) (brent k) _ _ hs
-      obtain ⟨kind', H', hk', hne, hle⟩ :=
-        size_after_feasible_selection ((cfg.maxH + cfg.minH) / 2) (f k) cfg.minH cfg.maxH (brent k) tol c
-          (hcons hfeas) hnz hb hl hct
-      rw [hk] at hk'
-      injection hk' with hk'
-      injection hk' with e1 e2
-      subst e1; subst e2
-      refine ⟨h1, ?_, ?_, hle⟩
-      · -- the height is in the window: low clamp or Brent's iterate
-        rcases lt_or_gt_of_ne hnz with hneg | hpos
-        · have := solveRoot_clamped_low ((cfg.maxH + cfg.minH) / 2) (f k) cfg.minH cfg.maxH (brent k) hneg (hcons hfeas)
-          rw [hk] at this; injection this with this; injection this with _ e; rw [e]
-        · obtain ⟨h2, _, h3, _⟩ := solveRoot_bracketed ((cfg.maxH + cfg.minH) / 2) (f k) cfg.minH cfg.maxH (brent k) tol c
-            (Or.inr ⟨hcons hfeas, hpos⟩) (hb hpos) hl
-          rw [hk] at h2; injection h2 with h2; injection h2 with _ e; rw [e]; exact h3
-      · rcases lt_or_gt_of_ne hnz with hneg | hpos
-        · have := solveRoot_clamped_low ((cfg.maxH + cfg.minH) / 2) (f k) cfg.minH cfg.maxH (brent k) hneg (hcons hfeas)
-          rw [hk] at this; injection this with this; injection this with _ e; rw [e]; exact hwin
-        · obtain ⟨h2, _, _, h4⟩ := solveRoot_bracketed ((cfg.maxH + cfg.minH) / 2) (f k) cfg.minH cfg.maxH (brent k) tol c
-            (Or.inr ⟨hcons hfeas, hpos⟩) (hb hpos) hl
-          rw [hk] at h2; injection h2 with h2; injection h2 with _ e; rw [e]; exact h4
+  | valueError => simp at hsel
+  | pyError e => simp at hsel
+  | selected l k h' => simp only at hsel; injection hsel with e1 e2 _; subst e2; rw [← e1]
+
+/-- The RowWise search: the returned design is the field `RowWiseModifiedBisectionSearch.search`
+    returned (with its escape flag), sized from maximum height. -/
+theorem find_design_feasible_rowwise (Es : Rat → Rat) (nb : Rat → Nat) (szs : Rat → Rat) (E1 : Rat) (Esub : Nat → Rat)
+    (cfg : RWCfg) (minH maxH : Rat) (E f : RWSel → Rat → Rat) (its : RWSel → List Rat) (brent : RWSel → Rat)
+    (d : DesignG RWSel Bool) (tol c : Rat)
+    (hres : findDesignG (searchRW Es nb szs E1 Esub cfg maxH) E minH maxH f its brent = .design d)
+    (hwin : minH ≤ maxH)
+    (hfeas : f d.field maxH < 0)
+    (hnz : f d.field minH ≠ 0)
+    (hb : 0 < f d.field minH → BrentSpec (f d.field) minH maxH tol (brent d.field))
+    (hl : Lipschitz (f d.field) c minH maxH) (hct : 0 ≤ c * tol) :
+    (rowwiseSearch Es nb szs E1 Esub cfg).1 = .selected d.field d.path ∧
+    d.st.simAt = some d.st.H ∧ minH ≤ d.st.H ∧ d.st.H ≤ maxH ∧ f d.field d.st.H ≤ c * tol := by
+  obtain ⟨⟨h, hsel⟩, rest⟩ := find_design_feasible _ E minH maxH f its brent d tol c hres hwin hfeas hnz hb hl hct
+  refine ⟨?_, rest⟩
+  unfold searchRW at hsel
+  cases ho : (rowwiseSearch Es nb szs E1 Esub cfg).1 with
+  | valueError => simp [ho] at hsel
+  | selected fld esc => simp only [ho] at hsel; injection hsel with e1 _ e3; subst e1; subst e3; rfl
 
 
 /-- Non-vacuity of the pipeline theorem: search (candidate 2), then a bracketed sizing whose Brent
@@ -366,6 +428,13 @@ example :
       { cap := none, cont := false, maxIter := 15, minH := 60, maxH := 135 }
       (fun k h => (3 : Rat) - 2 * k + (135 - h) / 25) (fun _ => [100, 112]) (fun _ => 110)
       = .design { field := 2, path := .bisection, st := { H := 110, simAt := some 110, returned := 110 } } := by
+  decide +kernel
+
+/-- Non-vacuity of the nested corollary: list 1, candidate 2, bracketed sizing with Brent root 110 m. -/
+example :
+    findDesignG (searchOf2 (.selected 1 2 135)) (fun _ _ => (0 : Rat)) 60 135
+      (fun _ h => (135 - h) / 25 - 1) (fun _ => [100, 112]) (fun _ => 110)
+      = .design { field := (1, 2), path := (), st := { H := 110, simAt := some 110, returned := 110 } } := by
   decide +kernel
 
 /-- Non-vacuity: a 4-candidate list with a decreasing excess; the search selects candidate 2. -/
@@ -386,7 +455,7 @@ theorem evaluated_field_flow_as_requested (c : Flow.Copy) (v rho : Rat) (cs : Li
   have hn : cs.length ≠ 0 := by simpa using h
   have hq := Flow.length_cast_ne_zero h
   refine ⟨⟨_, Flow.retrieveFlow_borehole c v cs rho, ?_⟩, ⟨_, Flow.retrieveFlow_system c v cs rho h, ?_⟩⟩
-  · simp [Flow.baseGhe, hn, mul_div_assoc, div_self hq]
+  · simp [Flow.baseGhe, hn]
   · simp [Flow.baseGhe, hn]
 
 end GHEVerif.C01
